@@ -138,14 +138,15 @@ def check(ctx):
     ctx.check(ok5 and len(uses) >= 2, "R11.5", "a row influences its hash only through the sign of its projections",
               gh.node, gh, "; ".join(detail), construct="def get_context_hash")
     # hash value = sum of 2^i * sign bits
-    lp_n, lb = find("for _I_ in range(%s.shape[1]):\n    _HV_ = _HV_ + _PS_[:, _I_] * 2 ** _I_" % p_plane, gh.node)
+    lp_n, lb = find("for _I_ in range(%s.shape[1]):\n    _HV_ = _HV_ + _EPS_[:, _I_] * 2 ** _I_" % p_plane, gh.node)
+    if lp_n is None:
+        lp_n, lb = find("for _I_ in range(%s.shape[1]):\n    _HV_ += _EPS_[:, _I_] * 2 ** _I_" % p_plane, gh.node)
     ok_sum = lp_n is not None
     if ok_sum:
-        ps, _ = find("%s = 1 * (np.dot(%s, %s) > 0)" % (lb["_PS_"], p_ctx, p_plane), gh.node)
-        ok_sum = ps is not None or any(ast.unparse(n.value).startswith("1 * (np.dot(") or
-                                       "np.dot(%s, %s)" % (p_ctx, p_plane) in ast.unparse(n.value)
-                                       for n in ast.walk(gh.node) if isinstance(n, ast.Assign)
-                                       and ast.unparse(n.targets[0]) == lb["_PS_"])
+        signs = " ".join(ast.unparse(_inline(gh.node, ast.parse(lb["_EPS_"], mode="eval").body)).split())
+        proj = "np.dot(%s, %s)" % (p_ctx, p_plane)
+        ok_sum = signs in ("1 * (%s > 0)" % proj, "(%s > 0) * 1" % proj, "(%s > 0).astype(int)" % proj,
+                           "np.where(%s > 0, 1, 0)" % proj)
     ctx.check(ok_sum, "R11.5", "hash code = sum over planes of 2^i * [projection_i > 0]", gh.node, gh,
               construct="hash code accumulation")
     # ---- R11.2 traces
